@@ -15,7 +15,8 @@ CONSTANTS Depth,
           Params,        \* limits / counts
           NStages,       \* set of chain lengths
           PipeFlavs,     \* subset of {"plain", "batched", "twin"}
-          SelfObs        \* subset of {0, 1}: allow "adapter itself as observer"
+          SelfObs,       \* subset of {0, 1}: allow "adapter itself as observer"
+          CoreSet        \* "lean" | "full": operation set of the complete-tree generator (GSpecCore)
 
 VARIABLES pipes,  \* sequence of [flav, chain]
           lim     \* [pipe -> [stage -> [st: "none" | "alive" | "dropped", val: announced value, seen: polled since]]]
@@ -116,6 +117,31 @@ GNextTxnSmall ==
           \/ \E s \in 1..Len(pipes) :
                 Poll(s, 0) /\ lim' = [lim EXCEPT ![s] = [i \in DOMAIN lim[s] |-> [lim[s][i] EXCEPT !.seen = TRUE]]]
 GSpecTxnSmall == GInit /\ [][GNextTxnSmall]_gvars
+
+(* a compact core of operations for COMPLETE trees (every path): adapters keep internal state the    *)
+(* generator knows nothing about (parked diffs, index tables), so one behaviour per transition is not *)
+(* enough; every path of a small depth over this core is.                                           *)
+LeanOp ==
+    \/ PushFront("v", fresh) \/ PushBack("v", fresh) \/ PopFront("v")
+    \/ Insert("v", 1, fresh) \/ SetAt("v", 0, fresh, "Set") \/ RemoveIdx("v", 1, "Remove") \/ Truncate("v", 1)
+CoreOp ==
+    \/ LeanOp
+    \/ (CoreSet = "full" /\ (\/ PopBack("v") \/ Clear("v") \/ SetAt("v", 1, fresh, "Set")
+                              \/ RemoveIdx("v", 0, "Remove") \/ AppendK("v", 2)))
+GNextCore ==
+    \/ (CoreOp /\ UNCHANGED <<pipes, lim>>)
+    \/ (\E s \in 1..Len(pipes), k \in {0, 1} :
+          Poll(s, k) /\ lim' = [lim EXCEPT ![s] = [i \in DOMAIN lim[s] |-> [lim[s][i] EXCEPT !.seen = TRUE]]] /\ UNCHANGED pipes)
+    \/ LimSide
+GSpecCore == GInit /\ [][GNextCore]_gvars
+
+(* limit-centred trees: every path over limit changes, the limit observable's drop, polls and two source calls *)
+GNextLimits ==
+    \/ ((PushBack("v", fresh) \/ PopFront("v")) /\ UNCHANGED <<pipes, lim>>)
+    \/ (\E s \in 1..Len(pipes) :
+          Poll(s, 0) /\ lim' = [lim EXCEPT ![s] = [i \in DOMAIN lim[s] |-> [lim[s][i] EXCEPT !.seen = TRUE]]] /\ UNCHANGED pipes)
+    \/ LimSide
+GSpecLimits == GInit /\ [][GNextLimits]_gvars
 
 GSpec == GInit /\ [][GNext]_gvars
 GSpecTxn == GInit /\ [][GNextTxn]_gvars
